@@ -83,6 +83,9 @@ def BsVec.projection (b : BsVec α) : α × α :=
 /-- `Pose()`: identity rotation, origin -/
 def Pose.identity : Pose α := ⟨M3.one, V3.zero⟩
 
+/-- `Pose.scale(scale)`: the only mutator of a `Pose` (the object's new state) -/
+def Pose.scale (P : Pose α) (k : α) : Pose α := ⟨P.R, Gen.C15.poseScaleT P.t k⟩
+
 /-- `Pose.rotate_translate(point)` -/
 def Pose.rotateTranslate (P : Pose α) (p : V3 α) : V3 α := Gen.C15.poseRt P.R P.t p
 
@@ -171,6 +174,14 @@ def quatMatrix (q0 : Quat α) : M3 α :=
   ⟨⟨x * x - y * y - z * z + w * w, two * (x * y - z * w), two * (x * z + y * w)⟩,
    ⟨two * (x * y + z * w), -(x * x) + y * y - z * z + w * w, two * (y * z - x * w)⟩,
    ⟨two * (x * z - y * w), two * (y * z + x * w), -(x * x) - y * y + z * z + w * w⟩⟩
+
+/-- quaternion of a rotation vector, `(axis·sin(θ/2), cos(θ/2))`: what `Rotation.from_rotvec(r).as_quat()` computes and
+what `Pose.from_rot_vec(r).rot_quat` returns up to sign -/
+def rotVecQuat (r : V3 α) : Quat α :=
+  let theta := V3.norm r
+  let v := V3.divNanToNum (nat 0) (nat 0) r theta
+  let s := sin (theta / nat 2)
+  ⟨s * v.x, s * v.y, s * v.z, cos (theta / nat 2)⟩
 
 end
 end CfVerif.C15
